@@ -68,6 +68,7 @@ var optSets = []OptSet{
 	{Name: "raw_struct-meta", Backend: "go", Opts: []string{"template=raw_struct", "gen_type_meta"}},
 	{Name: "trim-reflection", Backend: "go", Opts: []string{"trim_idl", "with_reflection"}},
 	{Name: "apache_adaptor", Backend: "go", Opts: []string{"apache_adaptor", "reorder_fields"}},
+	{Name: "apache_warning", Backend: "go", Opts: []string{"apache_warning", "gen_db_tag", "snake_style_json_tag"}},
 }
 
 var gmp = []int{1, 2, 7, 16}
@@ -182,52 +183,57 @@ func linesOf(path string) []string {
 	return strings.Split(string(b), "\n")
 }
 
-// attribute looks at where two versions of one generated file differ.
+// attribute looks at where two versions of one generated file differ: only inside the byte literal
+// of the embedded descriptor, only in the order of the lines of import blocks, or elsewhere.
 func attribute(pa, pb string) (attr, excerpt string) {
-	a, b := linesOf(pa), linesOf(pb)
-	region := func(ls []string) []string { // region label per line
-		out := make([]string, len(ls))
+	split := func(ls []string) (rest, desc, imps []string) {
 		cur := ""
-		for i, l := range ls {
+		for _, l := range ls {
 			t := strings.TrimSpace(l)
-			switch {
-			case cur == "" && strings.Contains(l, "_rawDesc = []byte{"):
-				cur = "descriptor-bytes"
-			case cur == "" && strings.HasPrefix(t, "import ("):
-				cur = "import-order"
+			if cur == "" {
+				switch {
+				case strings.Contains(l, "_rawDesc = []byte{"):
+					cur = "d"
+				case strings.HasPrefix(t, "import ("):
+					cur = "i"
+				}
+				rest = append(rest, l)
+				continue
 			}
-			out[i] = cur
-			if cur != "" && (t == "}" || t == ")") {
+			if (cur == "d" && t == "}") || (cur == "i" && t == ")") {
 				cur = ""
+				rest = append(rest, l)
+				continue
 			}
-		}
-		return out
-	}
-	ra, rb := region(a), region(b)
-	attrs := map[string]bool{}
-	n := len(a)
-	if len(b) != n {
-		attrs["unattributed"] = true
-		if len(b) < n {
-			n = len(b)
-		}
-	}
-	for i := 0; i < n; i++ {
-		if a[i] != b[i] {
-			if excerpt == "" {
-				excerpt = fmt.Sprintf("line %d: %q vs %q", i+1, clip(a[i], 100), clip(b[i], 100))
-			}
-			if ra[i] == rb[i] && ra[i] != "" {
-				attrs[ra[i]] = true
+			if cur == "d" {
+				desc = append(desc, l)
 			} else {
-				attrs["unattributed"] = true
+				imps = append(imps, l)
 			}
 		}
+		return
 	}
-	if len(attrs) == 1 {
-		for k := range attrs {
-			return k, excerpt
+	a, b := linesOf(pa), linesOf(pb)
+	for i := 0; i < len(a) && i < len(b); i++ {
+		if a[i] != b[i] {
+			excerpt = fmt.Sprintf("line %d: %q vs %q", i+1, clip(a[i], 100), clip(b[i], 100))
+			break
 		}
+	}
+	ra, da, ia := split(a)
+	rb, db, ib := split(b)
+	eq := func(x, y []string) bool { return strings.Join(x, "\n") == strings.Join(y, "\n") }
+	if !eq(ra, rb) {
+		return "unattributed", excerpt
+	}
+	sa, sb := append([]string(nil), ia...), append([]string(nil), ib...)
+	sort.Strings(sa)
+	sort.Strings(sb)
+	switch {
+	case !eq(da, db) && eq(ia, ib):
+		return "descriptor-bytes", excerpt
+	case eq(da, db) && !eq(ia, ib) && eq(sa, sb):
+		return "import-order", excerpt
 	}
 	return "unattributed", excerpt
 }
@@ -468,6 +474,18 @@ func shrink(t Tools, p Prog, o OptSet, want *Diff, dir string, runs int, budget 
 			}
 		}
 		p = with(lines)
+	}
+	// include files no line refers to any more are not read by thriftgo: drop them without a test
+	for fi := len(p.Files) - 1; fi >= 1; fi-- {
+		used := false
+		for _, g := range p.Files {
+			for _, l := range g.Lines {
+				used = used || l == fmt.Sprintf(`include "%s"`, p.Files[fi].Name)
+			}
+		}
+		if !used {
+			p.Files = append(p.Files[:fi:fi], p.Files[fi+1:]...)
+		}
 	}
 	// annotation groups, one at a time
 	for fi := 0; fi < len(p.Files); fi++ {
